@@ -4,6 +4,8 @@
 From Coq Require Import List String NArith Bool.
 From Piko Require Import Base.Maps Base.Strs Gossip.Types Gossip.Local Gossip.Apply Gossip.World GossipP.SortP GossipP.LocalP.
 From Piko Require Import GossipP.Valid GossipP.ApplyValid GossipP.WorldInv.
+From Coq Require Import ZArith.
+From Piko Require Import generated.Constants GossipP.ConstantsP.
 Import ListNotations.
 Open Scope string_scope. Open Scope N_scope.
 
@@ -104,6 +106,17 @@ Proof.
   repeat constructor; vm_compute; discriminate.
 Qed.
 
+(* compaction as the running node invokes it (gossip.go: CompactLocal(compactThreshold) every ten intervals): CompactLocal
+   indexes the last of its version-sorted entries, which would be index -1 on a state without entries; that branch is
+   unreachable for every threshold >= 1, in particular for the threshold of the current source (regenerated constants) -
+   and it IS reached with threshold 0 (the model returns the state unchanged there, the code panics: precondition) *)
+Theorem C17_compaction_never_indexes_empty :
+  (forall th s, (1 <= th)%N -> compact_hits_empty th s = false) /\
+  (forall s, compact_hits_empty (Z.to_N GoConst.compactThreshold) s = false) /\
+  compact_hits_empty 0 (new_node "a" "x") = true /\
+  GoConst.compactKey = Types.compactKey.
+Proof. exact (conj compact_never_empty (conj src_compaction_never_panics (conj compact_zero_threshold_hits (proj2 src_reserved_keys)))). Qed.
+
 Print Assumptions C17_lww_refinement.
 Print Assumptions C17_lww_refinement_from.
 Print Assumptions C17_invariant_reachable.
@@ -113,3 +126,4 @@ Print Assumptions C17_compact.
 Print Assumptions C17_observers_agree.
 Print Assumptions C17_refuted_pinned.
 Print Assumptions C17_example_history.
+Print Assumptions C17_compaction_never_indexes_empty.
